@@ -15,6 +15,8 @@ from fractions import Fraction
 
 import numpy as np
 
+import re
+FOUR_DEC = re.compile(r'^-?[0-9]+\.[0-9]{4}$')
 TAINT_WORDS = ('label', 'name', 'alias', 'assignment')
 NUM_FIELDS = ('bootstrapping_probability', 'avg_correlation',
               'aggregate_probability')
@@ -444,17 +446,32 @@ def check_csv(tree, results, comments, header, rows, conf_key, conf_label,
                     fails.append(('confidence/missing-value',
                                   'row %d column %r: %r' % (i, cn, got)))
                 continue
+            want = four_decimals(v)
             try:
-                ok = decimal.Decimal(got) == four_decimals(v)
+                ok = decimal.Decimal(got) == want
             except decimal.InvalidOperation:
                 ok = False
-            if not ok:
-                cls = 'confidence-not-4-decimals'
-                if is_tainted(rl):
-                    cls += '/level-name-contains-label-name-alias'
-                fails.append((cls, 'row %d column %r: %r is not %r to four '
-                              'decimals (%s)' % (i, cn, got, v,
-                                                 four_decimals(v))))
+            if not is_tainted(rl):
+                # the property: exactly the four-decimal text
+                if not ok or not FOUR_DEC.match(got):
+                    fails.append(('confidence-not-4-decimals',
+                                  'row %d column %r: %r is not %r to four '
+                                  'decimals (%s)' % (i, cn, got, v, want)))
+            else:
+                # the known finding, both ways: a column whose name contains
+                # label / name / alias / assignment is written unformatted
+                if got != repr(float(v)):
+                    fails.append(('tie/tainted-column-not-raw',
+                                  'row %d column %r: %r is not the '
+                                  'unformatted float %r although the column '
+                                  'name contains label/name/alias/assignment'
+                                  % (i, cn, got, repr(float(v)))))
+                elif not ok or not FOUR_DEC.match(got):
+                    fails.append((
+                        'confidence-not-4-decimals/'
+                        'level-name-contains-label-name-alias',
+                        'row %d column %r: %r is not %r to four decimals '
+                        '(%s)' % (i, cn, got, v, want)))
     return fails
 
 
@@ -895,3 +912,37 @@ def pyval_from_json(j, strs):
         return {pyval_from_json(a, strs): pyval_from_json(b, strs)
                 for a, b in v}
     raise ValueError('cannot rebuild %r' % (j,))
+
+
+# ---------------------------------------------------------------------------
+# the tree a run votes on (drop_level / flatten), for the marker table
+# ---------------------------------------------------------------------------
+
+def run_tree_parents(tree, flatten, drop_level):
+    """{marker_genes key: number of children} for every parent of the tree
+    the run votes on ('None' = root)"""
+    h = list(tree['hierarchy'])
+    if drop_level is not None and drop_level in h[:-1] and len(h) > 1:
+        hh = [lv for lv in h if lv != drop_level]
+    else:
+        hh = list(h)
+    if flatten:
+        hh = [h[-1]]
+
+    def descend(level, node, target):
+        """descendants of (level, node) at level `target` (original tree)"""
+        cur = [node]
+        i = h.index(level)
+        while h[i] != target:
+            nxt = []
+            for n in cur:
+                nxt += list(tree[h[i]][n])
+            cur = nxt
+            i += 1
+        return cur
+
+    out = {'None': len(tree[hh[0]])}
+    for a, b in zip(hh[:-1], hh[1:]):
+        for n in tree[a]:
+            out['%s/%s' % (a, n)] = len(descend(a, n, b))
+    return out
